@@ -404,8 +404,8 @@ func runExchange(t *verifsim.Tape, cfg engine.Config, prop string) *engine.Outco
 			payload = cp
 			brokenSite = &st
 		case "invalid-result":
-			if m.Result == nil {
-				mode = "valid"
+			if m.Result == nil || resultType(d, m) != nil {
+				mode = "valid" // results rendered through a view are C08's subject
 				break
 			}
 			cp := gen.DeepCopy(result)
@@ -512,7 +512,7 @@ func runExchange(t *verifsim.Tape, cfg engine.Config, prop string) *engine.Outco
 			continue
 		}
 		if ex.HandlerPanic != nil && ex.HandlerPanic != "http.ErrAbortHandler" && !(prop == "C08" && viewClass == "undefined") {
-			o.Violate("handler_panic", "handler_panic:"+sig, "%s: generated server panicked: %v\n%s (payload %s, faults %v)", where, ex.HandlerPanic, ex.PanicStack, gen.Show(payload), ex.Faults)
+			o.Violate("handler_panic", "handler_panic:"+stackClass(ex), "%s: generated server panicked: %v\n%s (payload %s, faults %v)", where, ex.HandlerPanic, genFrames(ex.PanicStack), gen.Show(payload), ex.Faults)
 			continue
 		}
 		// user code only ever sees values that satisfy the design (whatever the network did)
@@ -543,6 +543,16 @@ func runExchange(t *verifsim.Tape, cfg engine.Config, prop string) *engine.Outco
 		}
 		if prop == "C08" {
 			judgeView(o, w, d, s, m, ex, result, res, viewName, viewClass, cerr, where)
+			continue
+		}
+		if resultType(d, m) != nil && (mode == "valid" || mode == "boundary-ok") && (prop == "C03" || prop == "C05") && cerr == nil {
+			// a result type is rendered through its default (or fixed) view: the view oracle
+			// is the one that knows what must arrive
+			vc := "empty"
+			if m.FixedView != "" {
+				vc = "fixed"
+			}
+			judgeView(o, w, d, s, m, ex, result, res, "", vc, cerr, where)
 			continue
 		}
 		if secPlan != nil {
@@ -1315,4 +1325,61 @@ func judgeView(o *engine.Outcome, w *world, d *spec.Design, s *spec.Service, m *
 	if out := gen.OutsideView(d, got, u, rendered, ""); len(out) > 0 {
 		o.Violate("view_leak", "view_leak:"+sig, "%s: view %q: attributes outside the view are set on the client: %v (body %q)", where, rendered, out, clipS(string(ex.RespBody)))
 	}
+}
+
+
+// genFrames keeps the frames of generated code from a panic stack.
+func genFrames(stack string) string {
+	var out []string
+	lines := strings.Split(stack, "\n")
+	for i, l := range lines {
+		if strings.HasPrefix(l, "verifgen/") && i+1 < len(lines) {
+			fn := l
+			if j := strings.LastIndex(fn, "/"); j >= 0 {
+				fn = fn[j+1:]
+			}
+			if k := strings.Index(fn, "("); k > 0 {
+				fn = fn[:k]
+			}
+			loc := strings.TrimSpace(lines[i+1])
+			if j := strings.Index(loc, "/gen/"); j >= 0 {
+				loc = loc[j+5:]
+			}
+			if k := strings.Index(loc, " +0x"); k > 0 {
+				loc = loc[:k]
+			}
+			out = append(out, fn+" "+loc)
+		}
+	}
+	if len(out) > 5 {
+		out = out[:5]
+	}
+	return "  " + strings.Join(out, "\n  ")
+}
+
+func stackClass(ex *simnet.Exchange) string {
+	fn := "?"
+	for _, l := range strings.Split(ex.PanicStack, "\n") {
+		if strings.HasPrefix(l, "verifgen/") {
+			fn = l
+			if j := strings.LastIndex(fn, "/"); j >= 0 {
+				fn = fn[j+1:]
+			}
+			if k := strings.Index(fn, "("); k > 0 {
+				fn = fn[:k]
+			}
+			for _, pre := range []string{"unmarshal", "marshal", "transform", "Validate", "New", "Decode", "Encode", "Build", "Mount"} {
+				if k := strings.Index(fn, "."+pre); k >= 0 {
+					fn = pre + "*"
+					break
+				}
+			}
+			break
+		}
+	}
+	f := "fault-free"
+	if ex.ReqFault != "" {
+		f = ex.ReqFault
+	}
+	return f + ":" + fn
 }
